@@ -69,12 +69,18 @@ func (cs *colStats) covTol(i, j int) float64 {
 }
 
 func covmatCase(t *vlib.T, data [][]float64, ws wspec, reuse bool) {
+	covmatCaseRep(t, data, ws, reuse, "compact")
+}
+
+// covmatCaseRep is covmatCase with the data matrix in the given storage representation.
+func covmatCaseRep(t *vlib.T, data [][]float64, ws wspec, reuse bool, kind string) {
 	w := cloneF(ws.w)
 	r, c := len(data[0]), len(data)
 	cs := newColStats(data, w)
-	x := denseFromCols(data)
+	rep := buildRep(data, kind)
+	x := rep.m
 	x0 := mat.DenseCopyOf(x)
-	outcome := fmt.Sprintf("r=%d c=%d", r, c)
+	outcome := fmt.Sprintf("r=%d c=%d rep=%s", r, c, kind)
 	unbiased := cs.Wf >= 1.05
 	if !unbiased {
 		t.Outcome(outcome + " W<=1")
@@ -95,13 +101,27 @@ func covmatCase(t *vlib.T, data [][]float64, ws wspec, reuse bool) {
 	}
 	stat.CovarianceMatrix(&cov, x, w)
 	stat.CorrelationMatrix(&cor, x, w)
-	if !mat.Equal(x, x0) {
-		t.Failf("input matrix modified")
+	if !mat.Equal(x, x0) || !rep.intact() {
+		t.Failf("input matrix (or the storage around the view) modified")
+	}
+	if kind != "compact" {
+		// the result must not depend on how the caller stores the data
+		var cov0, cor0 mat.SymDense
+		stat.CovarianceMatrix(&cov0, denseFromCols(data), w)
+		stat.CorrelationMatrix(&cor0, denseFromCols(data), w)
+		if i, j, ok := sameMat(&cov, &cov0); !ok {
+			t.Failf("CovarianceMatrix of the %s representation differs from the compact one at (%d,%d): %v vs %v", kind, i, j, cov.At(i, j), cov0.At(i, j))
+		}
+		if i, j, ok := sameMat(&cor, &cor0); !ok {
+			t.Failf("CorrelationMatrix of the %s representation differs from the compact one at (%d,%d)", kind, i, j)
+		}
 	}
 	if n := cov.SymmetricDim(); n != c {
 		t.Failf("CovarianceMatrix dimension %d, want %d", n, c)
 		return
 	}
+	covBefore := mat.NewSymDense(c, nil)
+	covBefore.CopySym(&cov)
 	constCol := make([]bool, c)
 	for i := 0; i < c; i++ {
 		constCol[i] = cs.cols[i].SW2.Sign() == 0
@@ -311,10 +331,63 @@ func covmatCase(t *vlib.T, data [][]float64, ws wspec, reuse bool) {
 	if i, ok := vlib.Same64(w, ws.w); !ok {
 		t.Failf("weights modified at %d", i)
 	}
+	if !rep.intact() {
+		t.Failf("input storage modified by PrincipalComponents")
+	}
+	if !big15 {
+		// A finished analysis owns its state: the caller may refill its weights
+		// buffer and its data matrix, and may have stored the data in any way.
+		var pc stat.PC
+		if pc.PrincipalComponents(x, w) {
+			vars := pc.VarsTo(nil)
+			var vecs mat.Dense
+			pc.VectorsTo(&vecs)
+			if kind != "compact" {
+				var pc0 stat.PC
+				pc0.PrincipalComponents(denseFromCols(data), cloneF(ws.w))
+				v0 := pc0.VarsTo(nil)
+				var e0 mat.Dense
+				pc0.VectorsTo(&e0)
+				if i, ok := vlib.Same64(vars, v0); !ok {
+					t.Failf("PC variances of the %s representation differ from the compact one at %d: %v vs %v", kind, i, vars, v0)
+				}
+				if i, j, ok := sameMat(&vecs, &e0); !ok {
+					t.Failf("PC vectors of the %s representation differ from the compact one at (%d,%d)", kind, i, j)
+				}
+			}
+			for step := 0; step < 3; step++ {
+				switch step {
+				case 0: // refill the weights buffer
+					for i := range w {
+						w[i] = float64(3*i) + 0.5
+					}
+				case 1: // zero it (sum-1 = -1)
+					for i := range w {
+						w[i] = 0
+					}
+				case 2: // overwrite the data
+					rep.clobber()
+				}
+				v2 := pc.VarsTo(nil)
+				var e2 mat.Dense
+				pc.VectorsTo(&e2)
+				if i, ok := vlib.Same64(v2, vars); !ok {
+					t.Failf("PC.VarsTo changes after the caller overwrote its %s (element %d: %v, before %v)", []string{"weights", "weights", "data matrix"}[step], i, v2, vars)
+				}
+				if i, j, ok := sameMat(&e2, &vecs); !ok {
+					t.Failf("PC.VectorsTo changes after the caller overwrote its %s at (%d,%d)", []string{"weights", "weights", "data matrix"}[step], i, j)
+				}
+			}
+			// the covariance destination does not alias the (now overwritten) input either
+			if i, j, ok := sameMat(&cov, covBefore); !ok {
+				t.Failf("CovarianceMatrix result changes when the caller overwrites its inputs, at (%d,%d)", i, j)
+			}
+		}
+	}
 	t.Nontrivial()
 	t.Outcome(outcome)
 	if t.Failed() {
-		t.Detail(map[string]any{"cols": data, "w": w})
+		t.Detail(map[string]any{"cols": data, "w": ws.w, "rep": kind})
 	}
 }
 
@@ -457,6 +530,30 @@ func genMahalanobis(g *vlib.G) {
 				if !near(got, want, tol) {
 					t.Failf("Mahalanobis(%v,%v,S%d) = %v, exact solve gives %v", x, y, si, got, want)
 				}
+				// vector arguments as strided column views and opaque Vectors, Cholesky of a padded view
+				{
+					big := poisonSym(d + 2)
+					sv := big.SliceSym(1, 1+d).(*mat.SymDense)
+					for i := range S {
+						for j := i; j < d; j++ {
+							sv.SetSym(i, j, S[i][j])
+						}
+					}
+					var cholV mat.Cholesky
+					if !cholV.Factorize(sv) {
+						t.Failf("Cholesky of a SymDense view of family matrix %d failed", si)
+					}
+					xr, yr := vecReps(x), vecReps(y)
+					for _, kx := range []string{"compact", "colview", "opaque"} {
+						for _, ky := range []string{"compact", "colview", "opaque"} {
+							for ci, ch := range []*mat.Cholesky{&chol, &cholV} {
+								if g2 := stat.Mahalanobis(xr[kx], yr[ky], ch); !sameBits(g2, got) {
+									t.Failf("Mahalanobis(x %s, y %s, chol %d) = %v, compact arguments give %v", kx, ky, ci, g2, got)
+								}
+							}
+						}
+					}
+				}
 				if rev := stat.Mahalanobis(mat.NewVecDense(d, y), mat.NewVecDense(d, x), &chol); !near(rev, got, 2*tol) {
 					t.Failf("Mahalanobis not symmetric: %v vs %v", got, rev)
 				}
@@ -573,6 +670,11 @@ func rmatNorm(a rmat) float64 {
 }
 
 func ccaCase(t *vlib.T, xc, yc []int, ws wspec, n int) {
+	ccaCaseRep(t, xc, yc, ws, n, "compact", "compact")
+}
+
+// ccaCaseRep is ccaCase with the two data blocks in the given storage representations.
+func ccaCaseRep(t *vlib.T, xc, yc []int, ws wspec, n int, xkind, ykind string) {
 	w := cloneF(ws.w)
 	xd, yd := len(xc), len(yc)
 	xcols, ycols := make([][]float64, xd), make([][]float64, yd)
@@ -582,10 +684,14 @@ func ccaCase(t *vlib.T, xc, yc []int, ws wspec, n int) {
 	for i, c := range yc {
 		ycols[i] = ccaCols[c][:n]
 	}
-	X, Y := denseFromCols(xcols), denseFromCols(ycols)
+	xrep, yrep := buildRep(xcols, xkind), buildRep(ycols, ykind)
+	X, Y := xrep.m, yrep.m
 	Sx, Sy, Sxy := crossCov(xcols, xcols, w), crossCov(ycols, ycols, w), crossCov(xcols, ycols, w)
 	Sxi, Syi := rmatInv(Sx), rmatInv(Sy)
 	outcome := fmt.Sprintf("xd=%d yd=%d", xd, yd)
+	if xkind != "compact" || ykind != "compact" {
+		outcome += " rep=" + xkind + "/" + ykind
+	}
 	if Sxi == nil || Syi == nil {
 		t.Outcome(outcome + " singular")
 		return
@@ -722,6 +828,59 @@ func ccaCase(t *vlib.T, xc, yc []int, ws wspec, n int) {
 			}
 		}
 		chk("(ALs')Sx(ALs')", rmatMul(P, rmatMul(Sx, P)), eye, class)
+	}
+	if !xrep.intact() || !yrep.intact() {
+		t.Failf("CanonicalCorrelations modified its input storage")
+	}
+	if i, ok := vlib.Same64(w, ws.w); !ok {
+		t.Failf("weights modified at %d", i)
+	}
+	if xkind != "compact" || ykind != "compact" {
+		// the analysis must not depend on how the caller stores the data
+		var c0 stat.CC
+		if err := c0.CanonicalCorrelations(denseFromCols(xcols), denseFromCols(ycols), cloneF(ws.w)); err == nil {
+			if i, ok := vlib.Same64(corrs, c0.CorrsTo(nil)); !ok {
+				t.Failf("canonical correlations of the %s/%s representation differ from the compact ones at %d: %v vs %v", xkind, ykind, i, corrs, c0.CorrsTo(nil))
+			}
+			var l0, r0 mat.Dense
+			c0.LeftTo(&l0, false)
+			c0.RightTo(&r0, false)
+			if i, j, ok := sameMat(&L, &l0); !ok {
+				t.Failf("CC.LeftTo of the %s/%s representation differs from the compact one at (%d,%d)", xkind, ykind, i, j)
+			}
+			if i, j, ok := sameMat(&R, &r0); !ok {
+				t.Failf("CC.RightTo of the %s/%s representation differs from the compact one at (%d,%d)", xkind, ykind, i, j)
+			}
+		}
+	}
+	// a finished analysis owns its state: overwrite the caller's weights and data, query again
+	for step, what := range []string{"weights", "x", "y"} {
+		switch step {
+		case 0:
+			for i := range w {
+				w[i] = float64(2*i) + 1.5
+			}
+		case 1:
+			xrep.clobber()
+		case 2:
+			yrep.clobber()
+		}
+		var l2, r2, ls2, rs2 mat.Dense
+		cc.LeftTo(&l2, false)
+		cc.RightTo(&r2, false)
+		cc.LeftTo(&ls2, true)
+		cc.RightTo(&rs2, true)
+		if i, ok := vlib.Same64(cc.CorrsTo(nil), corrs); !ok {
+			t.Failf("CC.CorrsTo changes after the caller overwrote its %s (element %d)", what, i)
+		}
+		for _, pr := range []struct {
+			name string
+			a, b *mat.Dense
+		}{{"LeftTo", &l2, &L}, {"RightTo", &r2, &R}, {"LeftTo(sphered)", &ls2, &Ls}, {"RightTo(sphered)", &rs2, &Rs}} {
+			if i, j, ok := sameMat(pr.a, pr.b); !ok {
+				t.Failf("CC.%s changes after the caller overwrote its %s at (%d,%d)", pr.name, what, i, j)
+			}
+		}
 	}
 	t.Nontrivial()
 	t.Outcome(outcome)
